@@ -4,7 +4,9 @@
     /venv/bin/python harness/translate_kernel.py            print the generated text
     /venv/bin/python harness/translate_kernel.py --write    write coq/gen/Kernel_gen.v
 
-Source: lib_guesser/pcfg_grammar.py, class PcfgGrammar, the functions of SPECS.
+Source: lib_guesser/pcfg_grammar.py, class PcfgGrammar, the functions of SPECS
+(_find_prob, _are_you_my_child, find_children, is_parent_around,
+_recursive_restore_prob_order, initalize_base_structures).
 The source is only parsed (`ast`), never imported or executed.  The output
 (coq/gen/Kernel_gen.v) targets the small runtime coq/theories/KernelRt.v, and
 coq/theories/KernelGenProofs.v proves each generated definition equal to the
@@ -16,18 +18,25 @@ Accepted subset (anything else raises TranslateError with file:line):
 
   types      P (probability), nat (Python int >= 0), bool, node (a (variable, index)
              tuple), pt (list of nodes), item (the dict with keys 'pt', 'base_prob',
-             'prob'), items (list of items).  Parameter and return types are given by
+             'prob'), items (list of items); base / bases / vars (an entry of self.base,
+             self.base, its 'replacements').  Parameter and return types are given by
              SPECS (checked against the `def` line: names, order, defaults); the types
              of locals are inferred.
   statements x = e;  x *= e (probabilities);  x = copy.copy(y) / x = [] (fresh local
              lists);  x[i] = e and x.append(e) on such a fresh list only, as long as it
-             has not been stored anywhere;  if / elif / else;
-             for p, x in enumerate(l) / for x in l / for p in range(a, b) (no else);
-             continue;  return [e];  save_function(e) and the call of the function
-             itself as statements in the function SPECS marks as recursive;  a
-             docstring;  pass.
+             has not been stored anywhere;  if / elif / else (a conditional that is
+             followed by more statements either leaves on one side or contains no
+             control flow);  for p, x in enumerate(l) / for x in l / for p in range(a, b)
+             (no else; the iterated list is not touched in the body);  continue;
+             return [e];  save_function(e) and the call of the function itself as
+             statements in the function SPECS marks as recursive;  a docstring;  pass.
+             An item dict built key by key: d = {some of the item keys: ...} ('pt': []
+             allowed), d['pt'].append(e), d[key] = e, kept as one variable per key until
+             the dict is used as a value (then it must be complete, and no store into it
+             is accepted afterwards).
   expressions names;  int >= 0, True, False;  e[0], e[1] on a node;  l[i] on a pt;
-             d['pt'], d['base_prob'], d['prob'] on an item;
+             d['pt'], d['base_prob'], d['prob'] on an item;  b['prob'],
+             b['replacements'] on an entry of self.base;  self.base (as iterated list);
              self.grammar[t][i]['prob'];  len(self.grammar[t]);  len(l);
              a + b on ints;  a - 1 on ints only where a dominating `if a == 0:
              continue/return` shows a > 0 (tracked through copies and enumerate);
@@ -38,10 +47,12 @@ Accepted subset (anything else raises TranslateError with file:line):
 What the translation does NOT model: exceptions (a subscript out of range is the
 total `sub undef l i`, with `undef` a parameter of the generated section - the
 equality proofs need "indices in range" exactly there), object identity (mutation
-is accepted on fresh local copies only, where it cannot be observed through
+is accepted on fresh local objects only, where it cannot be observed through
 another name), and termination (the recursive function gets a fuel argument, as
 in the model).  The ghost tag of the model's item record (no counterpart in the
-Python dict) is copied from the item parameter of the enclosing function.
+Python dict) is copied from the item parameter of the enclosing function, or is
+the position in self.base for items built in a loop over self.base.  Rebinding of
+the translated methods from another module is out of the translator's sight.
 """
 import ast
 import hashlib
@@ -60,10 +71,12 @@ OUT = os.path.join("gen", "Kernel_gen.v")
 
 # ------------------------------------------------------------------ types
 P, NAT, BOOL, NODE, PT, ITEM, ITEMS, SAVE, UNIT = "P", "nat", "bool", "node", "pt", "item", "items", "save", "unit"
+BASE, BASES, VARS = "base", "bases", "vars"      # an entry of self.base, self.base, its 'replacements'
 COQ_TYPE = {
     P: "ProbAlg.P A", NAT: "nat", BOOL: "bool", NODE: "(Next.var * nat)", PT: "Next.pt",
     ITEM: "Next.item A", ITEMS: "list (Next.item A)",
 }
+ITEM_KEYS = {"pt": ("ipt", PT), "base_prob": ("ibase", P), "prob": ("iprob", P)}
 
 SPECS = [
     dict(py="_find_prob", coq="py_find_prob",
@@ -79,12 +92,13 @@ SPECS = [
     dict(py="_recursive_restore_prob_order", coq="py_restore",
          params=[("pt_item", ITEM), ("max_prob", P), ("min_prob", P), ("save_function", SAVE), ("left_index", NAT)],
          ret=UNIT, recursive=True, defaults={"left_index": 0}),
+    dict(py="initalize_base_structures", coq="py_initalize_base_structures", params=[], ret=ITEMS),
 ]
 
 # identifiers the generated text uses itself: a Python variable of that name is refused
 RESERVED = set("""A P rs fuel fuel' saved undef_prob undef_node tt true false fst snd length groups sub set_nth
 append extend for_enum for_each for_range for_from Continue Return ctl plt ple peq pmul negb andb orb
-itag ipt ibase iprob tbl bases nth seq nil cons list nat bool unit O S pred fun let in if then else match with end
+itag ipt ibase iprob bprob brepl tbl bases nth seq nil cons list nat bool unit O S pred fun let in if then else match with end
 forall exists Type Prop Set as at return fix cofix struct where Definition Fixpoint Section End Next ProbAlg
 KernelRt Nat""".split()) | {s["coq"] for s in SPECS}
 
@@ -101,9 +115,14 @@ class Env:
         self.fresh = set()     # names bound to a local list nothing else refers to
         self.sym = {}          # name -> canonical text of the value (alias tracking for `- 1`)
         self.nonzero = set()   # canonical texts of ints known to be > 0
+        self.partial = {}      # name -> {"fields": {key: variable}, "escaped": bool}: an item dict
+        #                        under construction, kept as one variable per key
+        self.tag = None        # text of the ghost tag an item built here gets
 
     def copy(self):
         e = Env()
+        e.partial = {n: {"fields": dict(d["fields"]), "escaped": d["escaped"]} for n, d in self.partial.items()}
+        e.tag = self.tag
         e.types = dict(self.types)
         e.fresh = set(self.fresh)
         e.sym = dict(self.sym)
@@ -164,7 +183,6 @@ class FunctionTranslator:
         self.uid = 0
         self.trace = spec["ret"] == UNIT          # result = record of save_function calls
         self.uses_fuel = bool(spec.get("recursive"))
-        self.tag_source = None
 
     # -------------------------------------------------------------- errors
     def fail(self, node, msg):
@@ -237,6 +255,10 @@ class FunctionTranslator:
 
     def expr(self, e, env):
         """-> (Gallina text, type)"""
+        if isinstance(e, ast.Name) and e.id in env.partial:
+            return self.built_item(e, env), ITEM
+        if self.is_self_attr(e, "base"):
+            return "bases rs", BASES
         if isinstance(e, ast.Name):
             if e.id not in env.types:
                 self.fail(e, "unknown variable %r (not assigned on every path to here?)" % e.id)
@@ -321,10 +343,21 @@ class FunctionTranslator:
                 return "sub undef_prob (%s) %s" % (row, _paren(i)), P
         if self.grammar_row(e, env) is not None or self.grammar_row(e.value, env) is not None:
             self.fail(e, "self.grammar may only be used as self.grammar[t][i]['prob'] and len(self.grammar[t])")
+        if isinstance(e.value, ast.Name) and e.value.id in env.partial:
+            d = env.partial[e.value.id]
+            if not (isinstance(e.slice, ast.Constant) and e.slice.value in d["fields"]):
+                self.fail(e, "key not set in the dict under construction")
+            var = d["fields"][e.slice.value]
+            return var, env.types[var]
         v, tv = self.expr(e.value, env)
         if isinstance(e.slice, ast.Constant) and type(e.slice.value) is str:
-            field = {"pt": ("ipt", PT), "base_prob": ("ibase", P), "prob": ("iprob", P)}.get(e.slice.value)
-            if tv != ITEM or field is None:
+            if tv == BASE:
+                field = {"prob": ("bprob", P), "replacements": ("brepl", VARS)}.get(e.slice.value)
+            elif tv == ITEM:
+                field = ITEM_KEYS.get(e.slice.value)
+            else:
+                field = None
+            if field is None:
                 self.fail(e, "unsupported string subscript")
             return "%s %s" % (field[0], _paren(v)), field[1]
         if tv == NODE:
@@ -346,9 +379,9 @@ class FunctionTranslator:
             keys.append(k.value)
         if sorted(keys) != ["base_prob", "prob", "pt"]:
             self.fail(e, "a dict literal must have exactly the keys 'pt', 'base_prob', 'prob'")
-        if self.tag_source is None:
-            self.fail(e, "an item is built in a function without an item parameter (ghost tag)")
-        want = {"pt": PT, "base_prob": P, "prob": P}
+        if env.tag is None:
+            self.fail(e, "an item is built where the translator has no ghost tag for it")
+        want = {k: t for k, (_, t) in ITEM_KEYS.items()}
         vals = {}
         # evaluation order of the values is irrelevant: expressions have no effects
         for k, v in zip(keys, e.values):
@@ -357,8 +390,22 @@ class FunctionTranslator:
                 self.fail(v, "value of key %r has type %s" % (k, ty))
             vals[k] = t
             self.escape(v, env)
-        return ("{| itag := itag %s; ipt := %s; ibase := %s; iprob := %s |}"
-                % (self.tag_source, vals["pt"], vals["base_prob"], vals["prob"])), ITEM
+        return ("{| itag := %s; ipt := %s; ibase := %s; iprob := %s |}"
+                % (env.tag, vals["pt"], vals["base_prob"], vals["prob"])), ITEM
+
+    def built_item(self, e, env):
+        """a dict built key by key, used as a value: the item record (from here on the dict is
+        known to the rest of the program, no further store into it is accepted)"""
+        d = env.partial[e.id]
+        if sorted(d["fields"]) != sorted(ITEM_KEYS):
+            self.fail(e, "the dict is used before all of 'pt', 'base_prob', 'prob' are set")
+        if env.tag is None:
+            self.fail(e, "an item is built where the translator has no ghost tag for it")
+        d["escaped"] = True
+        for var in d["fields"].values():
+            env.fresh.discard(var)
+        f = d["fields"]
+        return "{| itag := %s; ipt := %s; ibase := %s; iprob := %s |}" % (env.tag, f["pt"], f["base_prob"], f["prob"])
 
     def call(self, e, env):
         f = e.func
@@ -448,6 +495,8 @@ class FunctionTranslator:
                 add(t.id)
             elif isinstance(t, ast.Subscript) and isinstance(t.value, ast.Name):
                 add(t.value.id)
+                if isinstance(t.slice, ast.Constant) and type(t.slice.value) is str:
+                    add("%s_%s" % (t.value.id, t.slice.value))
             elif isinstance(t, ast.Tuple):
                 for x in t.elts:
                     target(x)
@@ -472,6 +521,9 @@ class FunctionTranslator:
                     if isinstance(f, ast.Attribute) and isinstance(f.value, ast.Name) and f.value.id != "self" \
                             and not self.is_copy(n):
                         add(f.value.id)       # a method call on a local (append): counts as mutation
+                    if isinstance(f, ast.Attribute) and isinstance(f.value, ast.Subscript) \
+                            and isinstance(f.value.value, ast.Name) and isinstance(f.value.slice, ast.Constant):
+                        add("%s_%s" % (f.value.value.id, f.value.slice.value))
                     if self.trace and ((isinstance(f, ast.Name) and f.id == "save_function")
                                        or self.is_self_attr(f, self.spec["py"])):
                         add("saved")
@@ -549,7 +601,13 @@ class FunctionTranslator:
         if len(s.targets) != 1:
             self.fail(s, "multiple assignment targets")
         t = s.targets[0]
+        if isinstance(t, ast.Name) and isinstance(s.value, ast.Dict) and self.partial_keys(s.value) is not None:
+            return self.new_partial(s, t.id, env, ind)
+        if isinstance(t, ast.Subscript) and isinstance(t.value, ast.Name) and t.value.id in env.partial:
+            return self.store_key(s, t, env, ind)
         if isinstance(t, ast.Name):
+            if t.id in env.partial:
+                self.fail(s, "a dict under construction is rebound")
             v = s.value
             if isinstance(v, ast.List) and not v.elts:
                 self.bind(s, t.id, ITEMS, env)
@@ -579,11 +637,97 @@ class FunctionTranslator:
             return self.line(ind, "let %s := set_nth %s %s %s in" % (x, x, _paren(i), _paren(v)), s)
         self.fail(s, "unsupported assignment target")
 
+    @staticmethod
+    def partial_keys(d):
+        """keys of a dict literal that starts an item dict built key by key (a strict, non-empty
+        subset of the item keys), else None"""
+        keys = [k.value if isinstance(k, ast.Constant) else None for k in d.keys]
+        if keys and all(type(k) is str and k in ITEM_KEYS for k in keys) and len(set(keys)) == len(keys) \
+                and len(keys) < len(ITEM_KEYS):
+            return keys
+        return None
+
+    def field_var(self, node, x, key, ty, env, new):
+        var = "%s_%s" % (x, key)
+        if new:
+            self.check_name(node, var)
+            if var in env.types or var in env.partial:
+                self.fail(node, "the variable name %r collides with the generated code" % var)
+        env.types[var] = ty
+        env.sym[var] = self.opaque()
+        env.fresh.discard(var)
+        return var
+
+    def key_value(self, node, key, v, env):
+        """value stored under an item key -> text; an empty list literal is a fresh parse tree"""
+        want = ITEM_KEYS[key][1]
+        if key == "pt" and isinstance(v, ast.List) and not v.elts:
+            return "@nil (Next.var * nat)", True
+        t, ty = self.expr(v, env)
+        if ty != want:
+            self.fail(node, "value of key %r has type %s" % (key, ty))
+        self.escape(v, env)
+        return t, False
+
+    def new_partial(self, s, x, env, ind):
+        self.check_name(s, x)
+        if x in env.types or x in env.partial:
+            self.fail(s, "%r is rebound to a dict under construction" % x)
+        out, fields, fresh = "", {}, []
+        for n, (key, v) in enumerate(zip(self.partial_keys(s.value), s.value.values)):
+            t, is_fresh = self.key_value(s, key, v, env)
+            var = "%s_%s" % (x, key)
+            fields[key] = (var, t, is_fresh)
+        for n, (key, (var, t, is_fresh)) in enumerate(fields.items()):
+            self.field_var(s, x, key, ITEM_KEYS[key][1], env, True)
+            if is_fresh:
+                env.fresh.add(var)
+            out += self.line(ind, "let %s := %s in" % (var, t), s if n == 0 else None)
+        env.partial[x] = {"fields": {k: v[0] for k, v in fields.items()}, "escaped": False}
+        return out
+
+    def store_key(self, s, t, env, ind):
+        x = t.value.id
+        d = env.partial[x]
+        if d["escaped"]:
+            self.fail(s, "store into a dict that has been stored elsewhere")
+        if not (isinstance(t.slice, ast.Constant) and t.slice.value in ITEM_KEYS):
+            self.fail(s, "unsupported key")
+        key = t.slice.value
+        text, is_fresh = self.key_value(s, key, s.value, env)
+        var = self.field_var(s, x, key, ITEM_KEYS[key][1], env, key not in d["fields"])
+        d["fields"][key] = var
+        if is_fresh:
+            env.fresh.add(var)
+        return self.line(ind, "let %s := %s in" % (var, text), s)
+
+    def merge_partial(self, node, env, inner):
+        """after a loop body / a conditional: what it did to the dicts under construction"""
+        for x, d in env.partial.items():
+            di = inner.partial.get(x)
+            if di is None or sorted(di["fields"]) != sorted(d["fields"]):
+                self.fail(node, "a key is added to a dict under construction inside a loop or conditional")
+            d["escaped"] = d["escaped"] or di["escaped"]
+
     def effect(self, s, env, ind):
         c = s.value
         if not isinstance(c, ast.Call):
             self.fail(s, "unsupported expression statement")
         f = c.func
+        # d['pt'].append(e) on a dict under construction
+        if isinstance(f, ast.Attribute) and f.attr == "append" and isinstance(f.value, ast.Subscript) \
+                and isinstance(f.value.value, ast.Name) and f.value.value.id in env.partial \
+                and len(c.args) == 1 and not c.keywords:
+            d = env.partial[f.value.value.id]
+            key = f.value.slice.value if isinstance(f.value.slice, ast.Constant) else None
+            var = d["fields"].get(key)
+            if key != "pt" or var is None or var not in env.fresh or d["escaped"]:
+                self.fail(s, "append is supported on the fresh 'pt' list of a dict under construction only")
+            t, ty = self.expr(c.args[0], env)
+            if ty != NODE:
+                self.fail(s, "append of a value of type %s" % ty)
+            env.sym[var] = self.opaque()
+            return self.line(ind, "let %s := append %s %s in" % (var, var, _paren(t)), s)
         # x.append(e)
         if isinstance(f, ast.Attribute) and f.attr == "append" and isinstance(f.value, ast.Name) \
                 and len(c.args) == 1 and not c.keywords:
@@ -654,6 +798,8 @@ class FunctionTranslator:
         out += self.block(body, env_t, join, ind + 2)
         out += self.line(ind + 1, "else")
         out += _close(self.block(orelse, env_f, join, ind + 2), ") in")
+        self.merge_partial(s, env, env_t)
+        self.merge_partial(s, env, env_f)
         for n in names:
             env.sym[n] = self.opaque()
             # freshness: a list stays fresh only if it is fresh on both paths
@@ -702,16 +848,29 @@ class FunctionTranslator:
             inner.sym[s.target.id] = self.opaque()
             head = "for_range %s %s (fun %s %%s =>" % (_paren(a), _paren(b), s.target.id)
             lst = None
-        elif isinstance(it, ast.Name):
+        elif isinstance(it, (ast.Name, ast.Attribute, ast.Subscript)):
             if not isinstance(s.target, ast.Name):
                 self.fail(s, "unsupported loop target")
             l, tl = self.expr(it, env)
-            if tl != PT:
-                self.fail(s, "loop over a value of type %s" % tl)
-            lst = it
-            binders = [(s.target.id, NODE)]
             inner.sym[s.target.id] = self.opaque()
-            head = "for_each %s (fun %s %%s =>" % (l, s.target.id)
+            if tl == PT and isinstance(it, ast.Name):
+                lst = it
+                binders = [(s.target.id, NODE)]
+                head = "for_each %s (fun %s %%s =>" % (l, s.target.id)
+            elif tl == VARS:
+                lst = None         # nothing in the subset can change a list of this type
+                binders = [(s.target.id, NAT)]
+                head = "for_each %s (fun %s %%s =>" % (_paren(l), s.target.id)
+            elif tl == BASES:
+                # the position in self.base is the ghost tag of the items built in the body
+                lst = None
+                tag = s.target.id + "_tag"
+                binders = [(tag, NAT), (s.target.id, BASE)]
+                inner.sym[tag] = self.opaque()
+                inner.tag = tag
+                head = "for_enum %s (fun %s %s %%s =>" % (_paren(l), tag, s.target.id)
+            else:
+                self.fail(s, "loop over a value of type %s" % tl)
         else:
             self.fail(s, "unsupported loop")
         if lst is not None and lst.id in names:
@@ -732,6 +891,7 @@ class FunctionTranslator:
                    lambda n, t, ty: "Return %s" % _paren(k.ret(n, t, ty)))
         out = self.line(ind, head % pat, s, header=True)
         out += _close(self.block(list(s.body), inner, body_k, ind + 2), ")")
+        self.merge_partial(s, env, inner)
         # a list is still fresh after the loop only if the body did not store it
         for n in list(env.fresh):
             if n not in inner.fresh:
@@ -746,7 +906,7 @@ class FunctionTranslator:
         fn, spec = self.fn, self.spec
         env = Env()
         items = [n for n, ty in spec["params"] if ty == ITEM]
-        self.tag_source = items[0] if len(items) == 1 else None
+        env.tag = "itag %s" % items[0] if len(items) == 1 else None
         for n, ty in spec["params"]:
             env.types[n] = ty
             env.sym[n] = n
